@@ -43,6 +43,13 @@ def main():
         meta["demo_unchanged_rc"] = rc0
         rc, out = sh(f"git apply {patch}", cwd=wt)
         if rc != 0:
+            # the patch was made against an older HEAD of /repo (before later fix: commits): try a 3-way merge
+            rc, out2 = sh(f"git apply -3 {patch}", cwd=wt)
+            out += out2
+            if rc == 0:
+                meta["patch_rebased_3way"] = True
+                sh(f"git diff HEAD > {patch}.rebased", cwd=wt)
+        if rc != 0:
             meta["error"] = "patch does not apply: " + out[-400:]
             print(json.dumps(meta, indent=1))
             return 1
@@ -67,7 +74,7 @@ def main():
             meta["ran"].append(f"VERIF_REPO=<tree> ./check {c} {tier_args} -> rc={rcc}")
         d = f"{VERIF}/seeded/{prop}/{name}"
         os.makedirs(d, exist_ok=True)
-        shutil.copy(patch, d + "/patch.diff")
+        shutil.copy(patch + ".rebased" if meta.get("patch_rebased_3way") and os.path.exists(patch + ".rebased") else patch, d + "/patch.diff")
         shutil.copy(demo, d + "/demo.py")
         if notes and os.path.exists(notes):
             shutil.copy(notes, d + "/notes.md")
